@@ -22,7 +22,7 @@ func init() { fw.Register(prop{}) }
 func (prop) ID() string { return "C04" }
 func (prop) Cases(tier string) int {
 	if tier == "thorough" {
-		return 3000
+		return 1200
 	}
 	return 400
 }
